@@ -67,7 +67,7 @@ def setup():
                              opt=w.get("opt", "-O1"), sanitize=w.get("sanitize", True), name=w["name"]))
     jobs.append(dict(source="cq_run.cpp", name="cq_run"))
     jobs.append(dict(source="cq_run.cpp", name=props_conc.RUNNER_HQ["name"], defines=props_conc.RUNNER_HQ["defines"]))
-    for r in props_conc.RUNNERS_CC:
+    for r in props_conc.RUNNERS_CC + props_conc.RUNNERS_HC:
         jobs.append(dict(source=r["source"], defines=r["defines"], name=r["name"]))
     for r in props_conc.STRESS_CC + props_conc.STRESS_CQ:
         jobs.append(dict(source=r["source"], defines=r["defines"], name=r["name"], sanitize="thread"))
